@@ -1,8 +1,9 @@
 (* Property C06 -- reloads are precise and every one is reported exactly once.  Statements only. *)
 From Coq Require Import List String NArith ZArith Bool.
 From AM Require Import Rust.Ast Rust.Script Ref.RwCell Gen.Entry Ref.Load Ref.Sys Proofs.SysGrows Proofs.SysFrame
-  Proofs.SysStatic Proofs.SysReload Proofs.Dfs Proofs.RwPin Proofs.RwStep Tie.Entry Tie.CallGraph Gen.Deps Tie.Graph.
+  Proofs.SysStatic Proofs.SysReload Proofs.Dfs Proofs.RwPin Proofs.RwStep Tie.Entry Tie.CallGraph Gen.Deps Tie.Graph Gen.Paths Tie.Paths.
 Import ListNotations.
+Open Scope string_scope.
 
 (* loading never touches the dependency graph nor the set of changed entries: only the reloader
    (draining its messages, handling events, running a pass) does *)
@@ -70,3 +71,14 @@ Proof. exact visit_marks_before_recursing. Qed.
 Theorem C06_code_watcher_starts_at_the_current_id :
   watcher_new_wf ReloadWatcherInner_new = true /\ watcher_reloaded_wf ReloadWatcher_reloaded = true.
 Proof. exact watcher_starts_at_the_current_id. Qed.
+
+(* the reloader's bookkeeping as printed from src/hot_reloading/paths.rs: an event joins the changed
+   set only if the graph knows its entry; a pass computes its order from the changed set, empties the
+   set and reloads each listed asset once; both kinds of cache run that same pass *)
+Theorem C06_code_pass_bookkeeping :
+  run_update_wf run_update = true /\ handle_events_wf HotReloadingData_handle_events = true /\
+  runs_pass_on ["CacheKind"; "Local"] 0 HotReloadingData_update_if_local = true /\
+  runs_pass_on ["CacheKind"; "Static"] 2 HotReloadingData_update_if_static = true /\
+  runs_pass_on ["CacheKind"; "Local"] 0 HotReloadingData_use_static_ref = true /\
+  fn_body HotReloadingData_clear_local_cache = [ESemi (EMethod (EField (EPath ["self"]) "to_reload") "clear" [])].
+Proof. exact paths_as_modelled. Qed.
